@@ -112,12 +112,20 @@ func newTx(db *DB, writable bool) (tx *Tx, err error) {
 
 // getTxID returns the tx id.
 func (tx *Tx) getTxID() (id uint64, err error) {
-	node, err := snowflake.NewNode(tx.db.opt.NodeNum)
-	if err != nil {
-		return 0, err
+	// one generator per database: ids of a fresh generator only differ by the millisecond,
+	// so two transactions beginning within the same millisecond would share an id.
+	tx.db.txIDMu.Lock()
+	defer tx.db.txIDMu.Unlock()
+
+	if tx.db.txIDNode == nil {
+		node, err := snowflake.NewNode(tx.db.opt.NodeNum)
+		if err != nil {
+			return 0, err
+		}
+		tx.db.txIDNode = node
 	}
 
-	id = uint64(node.Generate().Int64())
+	id = uint64(tx.db.txIDNode.Generate().Int64())
 
 	return
 }
